@@ -188,7 +188,7 @@ def main():
         fired = []
         for c in checks:
             env = dict(os.environ, PGCHECK_REPO=WT, PGCHECK_EVID=EVID)
-            r = run(["/verif/check", c], env=env, cwd="/verif")
+            r = run([os.environ.get("PGCHECK_BIN", "/verif/check"), c], env=env, cwd="/verif")
             for line in r.stdout.splitlines():
                 if line.startswith(c + ".") and "/" in line:
                     fired.append(line.split()[0])
@@ -216,7 +216,7 @@ def main():
         fired = []
         for c in checks:
             env = dict(os.environ, PGCHECK_REPO=WT, PGCHECK_EVID=EVID)
-            r = run(["/verif/check", c], env=env, cwd="/verif")
+            r = run([os.environ.get("PGCHECK_BIN", "/verif/check"), c], env=env, cwd="/verif")
             for line in r.stdout.splitlines():
                 if line.startswith(c + ".") and "/" in line:
                     fired.append(line.split()[0])
